@@ -219,6 +219,8 @@ class Distributed(strategy.Strategy):
                     # opportunity station:
                     # - charge according to strategy (simulate by creating equivalent vehicle)
                     # - discharge when needed power is above GC max power
+                    # remember actual GC limit (batteries may increase it temporarily)
+                    gc_cur_max_power = gc.cur_max_power
                     for b_id, battery in self.gc_battery.get(gc_id, {}).items():
                         if connected_vehicles:
                             # vehicle present: support GC (increase GC max power)
@@ -232,7 +234,7 @@ class Distributed(strategy.Strategy):
                             if soc_delta < self.EPS:
                                 # remaining power too small
                                 continue
-                            avail_bat_power[b_id] = (power, gc.cur_max_power)
+                            avail_bat_power[b_id] = (power, gc_cur_max_power)
                             gc.cur_max_power += power
                         else:
                             # vacant station: charge with strategy until vehicle arrives
